@@ -161,6 +161,14 @@ def maxBy (lt : Name → Name → Bool) : List Name → Option Name
 def recycleChoiceLex (names : List Name) (model ext : Name) : Option Name :=
   maxBy ltName (ofType names model ext)
 
+/-- the order used by the proposed repair (`sort(key=lambda f: (len(f), f))`): shorter names
+first, then string order -/
+def ltLenLex (a b : Name) : Bool := a.length < b.length || (a.length == b.length && ltName a b)
+
+/-- choice of the patched code -/
+def recycleChoiceLenLex (names : List Name) (model ext : Name) : Option Name :=
+  maxBy ltLenLex (ofType names model ext)
+
 /-- the repaired choice: the file of the candidate sequence with the largest index among
 the existing ones, i.e. the most recently created one when nothing was deleted -/
 def recycleChoice (names : List Name) (model ext : Name) : Option Name :=
